@@ -257,28 +257,36 @@ def classify_pipeline(case, ctx=None, n1=3000):
     c = ctx if ctx is not None else type("C", (), {"stat_tests": 0, "stat_stage2": 0})()
     Z = discrete_Z(case, t)[0] if case["family"] == "D" else gauss_Z(case, t)
 
+    KD = len(discrete_Z(case, t)[1]) if case["family"] == "D" else 0
+
     def one(k):
+        import jax.numpy as jnp
+
         lml, zs, lw, parts, _ = run_pipeline(case, k, False)
         lwn = lw - jax.scipy.special.logsumexp(lw)
-        return lml, zs, lwn
+        if KD:  # the library's own weighted average of the indicator of every state (ParticleCollection.estimate)
+            est = parts.estimate(lambda ch: (latent(case, ch, "z") == jnp.arange(KD)).astype(jnp.float32))
+        else:   # first two moments of the latent
+            est = parts.estimate(lambda ch: jnp.stack([latent(case, ch, "z"), latent(case, ch, "z") ** 2]))
+        return lml, zs, lwn, est
 
     bs = jax.jit(jax.vmap(one))
     cache = {}
 
     def draw(n, stage):
         if stage not in cache:
-            lml, zs, lwn = impl(bs, jax.random.split(env.key(case["key"], 10 + stage), n))
-            cache[stage] = (np.asarray(lml, dtype=np.float64), np.asarray(zs), np.asarray(lwn, dtype=np.float64))
+            lml, zs, lwn, est = impl(bs, jax.random.split(env.key(case["key"], 10 + stage), n))
+            cache[stage] = (np.asarray(lml, dtype=np.float64), np.asarray(zs), np.asarray(lwn, dtype=np.float64), np.asarray(est, dtype=np.float64))
         return cache[stage]
 
     try:
         if case["family"] == "D" and not case["custom"]:
             def pfun(n, stage):
-                lml, _, _ = draw(n, stage)
+                lml = draw(n, stage)[0]
                 return stats.bernstein_mean_p(np.exp(lml), Z, 0.0, 1.0)
         else:
             def pfun(n, stage):
-                lml, _, _ = draw(n, stage)
+                lml = draw(n, stage)[0]
                 return stats.block_mean_t_p(np.exp(lml) / Z, 1.0)
 
         res = stats.two_stage(c, pfun, n1)
@@ -290,17 +298,17 @@ def classify_pipeline(case, ctx=None, n1=3000):
             K = len(alpha)
 
             def pfun2(n, stage):
-                lml, zs, lwn = draw(n, stage)
+                lml, zs, lwn, est_api = draw(n, stage)
                 w = np.exp(lwn)
                 ps = []
                 for kk in range(K):
-                    est = np.exp(lml) * np.sum(w * (zs == kk), axis=1)
+                    est = np.exp(lml) * est_api[:, kk]  # Zhat * particles.estimate(1[z = k])
                     ps.append(stats.block_mean_t_p(est, alpha[kk])[0] if case["custom"] else stats.bernstein_mean_p(est, alpha[kk], 0.0, 1.0)[0])
                 return min(1.0, min(ps) * K), {"target": alpha.tolist()}
 
             res = stats.two_stage(c, pfun2, n1)
             if res:
-                fails.append((f"weighted_average_biased:{C}", f"E[Zhat * sum_i w_i 1(z_i=k)] differs from p(z_t=k, y): {res}"))
+                fails.append((f"weighted_average_biased:{C}", f"E[exp(log_marginal_likelihood()) * particles.estimate(1[z=k])] differs from p(z_t=k, y) after moves {case['moves']} with N={case['N']}: {res}"))
     except ImplError as e:
         fails.append((f"pipeline_batch_raises:{e.sig()}:{C}", str(e)))
     return fails, info
@@ -399,7 +407,10 @@ def cases():
         api = draw(st.sampled_from(["pipeline", "pipeline", "rsmc"]))
         base = {**fam, "N": draw(st.sampled_from([1, 2, 3, 5, 8])), "custom": draw(st.booleans()), "key": draw(st.integers(0, 2**30)), "api": api}
         if api == "pipeline":
-            return {**base, "moves": draw(st.lists(move, min_size=1, max_size=6))}
+            # a quarter of the pipelines end on a systematic resampling step, so that the weighted averages are taken from a
+            # freshly resampled (uniformly weighted, ancestor-sorted) collection
+            tail = draw(st.sampled_from([[], [], [], [], [], ["resample_sys"], ["resample_sys"], ["resample_cat"]]))
+            return {**base, "moves": draw(st.lists(move, min_size=1, max_size=6)) + tail}
         return {**base, "kernel": draw(st.booleans()), "n_moves": draw(st.integers(1, 2))}
 
     return _c()
